@@ -59,7 +59,11 @@ func (g *Gen) historyStep() {
 			g.do(Step{Op: "Select", Recv: f, Cols: bsList(g.subset(s.names, 4))})
 		}
 	case 6:
-		g.do(Step{Op: "Drop", Recv: f, Cols: bsList(g.subset(s.names, 2))})
+		cols := g.subset(s.names, 2)
+		if g.rng.Intn(3) == 0 { // unknown names are ignored by Drop - however many there are
+			cols = append(cols, g.subset([]string{"nosuch", "X9", "Y9", "Z9", "W9"}, 5)...)
+		}
+		g.do(Step{Op: "Drop", Recv: f, Cols: bsList(cols)})
 	case 7:
 		if g.rng.Intn(4) == 0 {
 			g.do(Step{Op: "Rolling", Recv: f, Dst: toBS(g.oneOf(append([]string{"R1"}, s.names...))), Src: toBS(g.oneOf(s.names)), A: g.rng.Intn(4), Fl: g.oneOf([]string{"", "start", "end", "center"})})
